@@ -47,6 +47,8 @@ type c06Case struct {
 	// SrcIgnoresHalfClose: the source does not end the RPC when the proxy half-closes the stream towards it (a Temporal
 	// source does, which is what the default models); the handler has to return regardless, after its grace period
 	SrcIgnoresHalfClose bool `json:"src_ignores_half_close,omitempty"`
+	// LongStall: a consumer that is stalled at the termination event resumes 7 virtual seconds later instead of 1
+	LongStall bool `json:"long_stall,omitempty"`
 }
 
 var c06TermKinds = []string{"srcEOF", "srcErr", "srcErrCanceled", "initEOF", "initErr", "initCancel", "initSendFail", "srcSendFail", "srcSendEOF", "srcUnknownKind", "initUnknownKind", "openFail"}
@@ -228,6 +230,11 @@ func c06Run(t *testing.T, c c06Case) (out c06Outcome, verr error, herr error) {
 		// a consumer that was stalled resumes one virtual second later (a peer that never reads again keeps the
 		// stream legitimately open, so no claim is made for that)
 		time.Sleep(time.Second)
+		if c.LongStall {
+			// the stalled consumer takes longer than any grace period the forwarder may have (5 s today) before it reads again
+			time.Sleep(6 * time.Second)
+			wait()
+		}
 		if !(c.NeverResume && c.Term == "initCancel") {
 			ss.Unstall()
 			cs.Unstall()
@@ -268,7 +275,9 @@ func c06Run(t *testing.T, c c06Case) (out c06Outcome, verr error, herr error) {
 				// (with the source face stalled the forwarder learns of the source's end through its blocked sync-state Send
 				// failing with io.EOF - as grpc-go does once the status has arrived - and stops at once: buffered messages
 				// that it had not relayed yet are dropped with the stream, the initiator re-opens from its acknowledged level)
-				if !initStalled && len(gotInit) < srcBefore {
+				// an initiator that was not reading when the source ended and reads again later (also much later) still gets
+				// everything the source had sent: the source's end closes nothing on the initiator's side before that
+				if (!initStalled || c.Term == "srcEOF" || c.Term == "srcSendEOF") && !srcStalled && len(gotInit) < srcBefore {
 					verr = fmt.Errorf("source ended (%s) after %d messages but the initiator got only %d", c.Term, srcBefore, len(gotInit))
 				}
 			case "initEOF", "initErr":
@@ -331,6 +340,13 @@ func c06Gen(t *rapid.T) c06Case {
 	}
 	if c.Term == "initEOF" && rapid.IntRange(0, 2).Draw(t, "srcIgnoresHalfClose") == 0 {
 		c.SrcIgnoresHalfClose = true
+	}
+	if (c.Term == "srcEOF" || c.Term == "srcSendEOF") && rapid.Bool().Draw(t, "longStall") {
+		// the source has sent several batches and ends; the initiator is not reading at that moment, sync states keep
+		// coming from it, and it reads again only after 7 s
+		c.LongStall = true
+		c.Steps = append(append(append([]c06Step{}, c.Steps[:c.TermAt]...), c06Step{K: "src"}, c06Step{K: "stallInit"}, c06Step{K: "src", NoWait: true}, c06Step{K: "src", NoWait: true}, c06Step{K: "ack", NoWait: true}), c.Steps[c.TermAt:]...)
+		c.TermAt += 5
 	}
 	if rapid.Bool().Draw(t, "burst") {
 		// a burst in both directions right before the termination event, not quiesced
